@@ -38,6 +38,10 @@ def generate(tier, seed):
     # HIS ring nitrogen or a CYS sulfur is written as CYS (OG -> SG)
     for i in range(8 if tier == "quick" else 48):
         cases.append({"kind": "exception-mutant", "index": i, "seed": "%d:x:%d" % (seed, i), "cost": 200})
+    # one structure run two or three times in a row with parameter files that differ in the Coulomb cut-offs
+    # (and with it in the configured maximum): every run must respect its own maximum
+    for i in range(16 if tier == "quick" else 800):
+        cases.append({"kind": "param-sequence", "seed": "%d:ps:%d" % (seed, i), "cost": 60})
     return cases
 
 
@@ -137,6 +141,11 @@ def run_case(case, tier):
         ov = {"desolvationAllowance": rng.choice((0.0, 0.05, 0.2, 0.6)),
               "desolvationSurfaceScalingFactor": rng.choice((0.25, 0.0, 0.6)),
               "Nmin": rng.choice((280, 150, 50)), "Nmax": rng.choice((560, 700))}
+        if rng.random() < 0.6:
+            # the Coulomb maximum itself is configured (244.12 / (30 * inner cut-off)): successive runs of one
+            # process with different cut-offs must each respect their own maximum
+            ov["coulomb_cutoff1"] = rng.choice((4.0, 6.0, 3.0, 5.0))
+            ov["coulomb_cutoff2"] = rng.choice((10.0, 8.0, 12.0))
         opts = ["-p", util.write_cfg(ov)]
         classes.append("parameter-file")
         desc["params"] = ov
@@ -145,7 +154,30 @@ def run_case(case, tier):
         recs, d = multiconf.build(rng, base=[r for r in recs if r.raw is not None or r.tag == "ATOM  "])
         classes.append("multi-conformation")
     text = pdbio.dump(recs)
+    if case["kind"] == "param-sequence":
+        seq = rng.sample(((3.0, 10.0), (6.0, 10.0), (4.0, 8.0), (5.0, 12.0), (4.0, 10.0)), rng.choice((2, 3)))
+        if rng.random() < 0.4:
+            # a whole protein (buried pairs reach the maximum), smallest inner cut-off first
+            recs = sources.full_protein(rng.choice(("3SGB.pdb", "1FTJ-Chain-A.pdb", "1HPX.pdb")))
+            text = pdbio.dump(recs)
+            seq = [(3.0, 10.0), (6.0, 10.0)]
+        for (c1, c2) in seq:
+            ov = {"coulomb_cutoff1": c1, "coulomb_cutoff2": c2}
+            energy_mon.set_overrides(ov)
+            r_ = obs.run_single(text, ["-p", util.write_cfg(ov)], write_pka=False)
+            counts["pipeline_runs"] = counts.get("pipeline_runs", 0) + 1
+            if r_.exc:
+                continue
+            for name in r_.rec["names"]:
+                energy_mon.check_conformation(name, r_.rec["confs"][name], viol, counts, classes)
+        energy_mon.set_overrides(None)
+        classes.append("parameter-sequence")
+        desc.update(sources.describe(recs))
+        desc["sequence"] = seq
+        import hashlib
+        return util.finish(case, viol, counts, classes, True, desc, digest=hashlib.sha1((text + repr(seq)).encode()).hexdigest()[:16])
     opts = opts + util.neutral_options(rng, classes=classes)
+    energy_mon.set_overrides(desc.get("params"))
     run = obs.run_single(text, opts, write_pka=False)
     counts["pipeline_runs"] = 1
     desc.update(sources.describe(recs))
